@@ -10,7 +10,7 @@ import (
 func defC06(mode int) *ph.Def {
 	return &ph.Def{Mode: mode, Unknown: 2, Help: "help", HelpAliases: []string{"?", "h"}, Root: ph.CmdDef{Name: "prog",
 		Opts: []ph.OptDef{
-			{Name: "bool", Kind: ph.Bool, Aliases: []string{"b", "é"}},
+			{Name: "bool", Kind: ph.Bool, Aliases: []string{"b", "é"}, Env: "VERIF_C06_BOOL"},
 			{Name: "str", Kind: ph.Str, Aliases: []string{"s", "string"}, Var: true, DefS: "D"},
 			{Name: "int", Kind: ph.Int, Var: true, DefI: 7, Env: "VERIF_C06_INT"},
 			{Name: "inc", Kind: ph.Incr, Aliases: []string{"i2"}, DefI: 1},
@@ -123,7 +123,7 @@ func init() {
 	register(&Check{
 		ID:        "C06",
 		QuickSecs: 120, ThoroSecs: 1200,
-		Rule: "input-space exploration: every argv of length <= L-1 over 30 tokens and of length L over the first 22 of them (every name and alias of 8 options of 6 kinds, half declared through *Var, one bound to an environment variable, one marked SetCalled, one with a multibyte one-letter alias; short spellings of one-letter aliases; the help option of HelpCommand and its aliases; values, positional, unknown option, command, UnsetOptions wrapper command) x 3 modes x environment {unset, valid}; " +
+		Rule: "input-space exploration: every argv of length <= L-1 over 30 tokens and of length L over the first 22 of them (every name and alias of 8 options of 6 kinds, half declared through *Var, one bound to an environment variable, one marked SetCalled, one with a multibyte one-letter alias; short spellings of one-letter aliases; the help option of HelpCommand and its aliases; values, positional, unknown option, command, UnsetOptions wrapper command) x 3 modes x environment {unset, valid, text that is not valid for the bound bool}; " +
 			"absolute: values (pointer, *Var target and Value() agree), Called, CalledAs compared with the reference model, untouched options keep defaults; metamorphic: replacing any occurrence of a name by any other alias of the same option changes nothing but CalledAs; " +
 			"distinct_nontrivial = distinct in-domain cases",
 		Assume: []string{"argv longer than L and other option sets are not covered"},
@@ -139,7 +139,7 @@ func init() {
 			var cfgs []cfg
 			var defs []*ph.Def
 			for mode := 0; mode < 3; mode++ {
-				for _, env := range []map[string]string{nil, {"VERIF_C06_INT": "42"}} {
+				for _, env := range []map[string]string{nil, {"VERIF_C06_INT": "42"}, {"VERIF_C06_BOOL": "yes"}} { // the last one is not valid text for a bool: nothing may change
 					d := defC06(mode)
 					cfgs = append(cfgs, cfg{d, env})
 					defs = append(defs, d)
